@@ -56,6 +56,7 @@ type World struct {
 	quiet  bool // suppress model-based oracles (used while replaying on a secondary store)
 	reqN   int
 	cancelNext bool
+	abortedReq bool
 	lastGCBusy bool
 	sessions map[int]*MSess
 	props  []string // properties this run's generic oracles speak for in addition to their own
@@ -290,7 +291,8 @@ func (w *World) generic(rs reqSpec, r *Resp) {
 		w.tainted["*"] = true
 	}
 	if r.is5xx() {
-		excused := w.faultOverlapped(r) || w.closed
+		// a client that went away mid-body never sees the status; what matters is the session state afterwards
+		excused := w.faultOverlapped(r) || w.closed || rs.abort
 		for _, rp := range rs.repos {
 			if w.tainted[rp] || w.inFlightEvict[rp] {
 				excused = true
